@@ -11,8 +11,16 @@ name, same length) - the registry request behind `DomainS.complement` is outside
                 current sequence / structure; zero-length domains are ordinary domains: no truth value of a domain is taken)
   transferred   `py_dlc_true_iff`, `py_dlc_false_iff`, `py_dlc_total`, `py_dlc_error`, `py_dlc_of_make_pair_table`
   no structure  `py_dlc_no_pair_table`: the exception of `make_pair_table`, object unchanged
+
+`ComplexS.split` AS WRITTEN (`list(self.split())`), with `self.__class__(nseq, nsst)` read as the PARAMETER `request`:
+  `py_split_spec`        for EVERY `request`: the list yielded is `splitRun request` of the parts of `split_complex_pt` (as written) -
+                         `request` applied to the components in order, a refusal with `existing` yields that object, the first refusal
+                         without `existing` aborts (`splitRun_nil`, `splitRun_cons_*`)
+  `py_split_components`  composed with `PyFuncs.py_split_spec`: with fuel `len(ptab) + 1` the parts ARE the connected components
+  left: the composition with `World.splitC` (Model/World.lean), which needs the registry model as the instance of `request`
 -/
 import DsdVerif.Lemmas.PyObj2Dlc
+import DsdVerif.Lemmas.PyObj2Split
 import DsdVerif.Props.C08Dlc
 
 namespace Dsd.PyComplexS2
@@ -85,6 +93,55 @@ theorem py_dlc_of_make_pair_table (lenOf : String → Nat) (s : ComplexS.Self) (
         ∃ d d', getL (doms lenOf s) l = some d ∧ getL (doms lenOf s) l' = some d' ∧ d.name = compName d'.name ∧ d.len = d'.len) := by
   rw [pyDlc_eq lenOf s h t hm]; exact C08.dlc_of_make_pair_table s._structure '+' t _ hm hshape
 
+/-! ### split -/
+
+/-- **`list(self.split())` as written, for every `request`** (Lemmas/PyObj2Split.lean) -/
+theorem py_split_spec (fuel : Nat) (request : List String → List Char → Py.M Nat) (s : ComplexS.Self) (h : PCoh s) :
+    ∃ s', (py_ComplexS_split fuel request).exec s =
+        (match makePairTable s._structure with
+         | .error e => .error e
+         | .ok t =>
+           match py_split_complex_pt fuel (makeStrandTableList "+" s._sequence) t with
+           | .error e => .error e
+           | .ok parts => splitRun request parts, s') ∧
+      PCoh s' ∧ SameRepS s s' := PyObj2.py_split_spec fuel request s h
+
+theorem splitRun_nil (request : List String → List Char → Py.M Nat) : splitRun request [] = .ok [] := rfl
+
+/-- a component whose request is granted, or refused WITH `existing`: that object is yielded and the loop goes on -/
+theorem splitRun_cons_ok (request : List String → List Char → Py.M Nat) (p) (rest) (q : List String) (r : List Char) (o : Nat)
+    (hq : py_strand_table_to_sequence_list p.1 "+" = .ok q) (hr : py_pair_table_to_dot_bracket p.2 '+' false = .ok r)
+    (ho : request q r = .ok o ∨ request q r = .error (.singleton (some o))) :
+    splitRun request (p :: rest) = (match splitRun request rest with | .ok hs => .ok (o :: hs) | .error e => .error e) := by
+  rcases ho with ho | ho <;> simp only [splitRun, hq, hr, ho, answer] <;> cases splitRun request rest <;> rfl
+
+/-- the first refusal WITHOUT `existing` aborts with that SingletonError -/
+theorem splitRun_cons_refused (request : List String → List Char → Py.M Nat) (p) (rest) (q : List String) (r : List Char)
+    (hq : py_strand_table_to_sequence_list p.1 "+" = .ok q) (hr : py_pair_table_to_dot_bracket p.2 '+' false = .ok r)
+    (ho : request q r = .error (.singleton none)) :
+    splitRun request (p :: rest) = .error (.singleton none) := by
+  simp only [splitRun, hq, hr, ho, answer]
+
+/-- with fuel `len(ptab) + 1`, on an object whose sequence and structure have their strand breaks at the same places, the parts that
+    `request` is applied to are exactly the connected components (`PyFuncs.py_split_spec`: sub-complexes on disjoint index sets that
+    partition the strands, each connected) -/
+theorem py_split_components (request : List String → List Char → Py.M Nat) (s : ComplexS.Self) (h : PCoh s) (t : PairTable)
+    (hm : makePairTable s._structure = .ok t)
+    (hshape : (makeStrandTableList "+" s._sequence).map List.length = t.map List.length) :
+    ∃ (s' : ComplexS.Self) (parts : List (List (List String) × PairTable)) (idxs : List (List Nat)),
+      (py_ComplexS_split (t.length + 1) request).exec s = (splitRun request parts, s') ∧ PCoh s' ∧ SameRepS s s' ∧
+      idxs.length = parts.length ∧
+      (∀ (k : Nat) part idx, parts[k]? = some part → idxs[k]? = some idx →
+        C09.PartOf (makeStrandTableList "+" s._sequence) t part idx ∧ idx ≠ []) ∧
+      (idxs.flatten.Perm (List.range t.length)) ∧
+      (∀ part ∈ parts, ∃ lo, makeLoopIndex part.2 false = .ok lo) := by
+  obtain ⟨s', hex, hc, hr⟩ := py_split_spec (t.length + 1) request s h
+  obtain ⟨parts, idxs, hp, h1, h2, h3, h4⟩ := PyFuncs.py_split_spec s._structure '+' t (makeStrandTableList "+" s._sequence)
+    (by rw [PyFuncs.py_make_pair_table_eq]; exact hm) hshape
+  refine ⟨s', parts, idxs, ?_, hc, hr, h1, h2, h3, h4⟩
+  rw [hex, hm]
+  simp only [hp]
+
 end Dsd.PyComplexS2
 
 #print axioms Dsd.PyComplexS2.py_dlc_eq
@@ -94,3 +151,7 @@ end Dsd.PyComplexS2
 #print axioms Dsd.PyComplexS2.py_dlc_total
 #print axioms Dsd.PyComplexS2.py_dlc_error
 #print axioms Dsd.PyComplexS2.py_dlc_of_make_pair_table
+#print axioms Dsd.PyComplexS2.py_split_spec
+#print axioms Dsd.PyComplexS2.splitRun_cons_ok
+#print axioms Dsd.PyComplexS2.splitRun_cons_refused
+#print axioms Dsd.PyComplexS2.py_split_components
